@@ -1020,12 +1020,13 @@ type packLoop struct {
 	l       *prover.Loop
 	remain  ssa.Value
 	branchR map[*ssa.BasicBlock]int64 // block that is the true side of `remain >= r`
+	test    map[int64]*ssa.BasicBlock // r -> the block that ends in the test `remain >= r`
 }
 
 // findPackLoop: the loop whose body is the if-chain on `remain >= r`.
 func findPackLoop(p *prover.F) *packLoop {
 	for _, l := range p.Loops() {
-		pl := &packLoop{l: l, branchR: map[*ssa.BasicBlock]int64{}}
+		pl := &packLoop{l: l, branchR: map[*ssa.BasicBlock]int64{}, test: map[int64]*ssa.BasicBlock{}}
 		var last2 *ssa.BasicBlock
 		for b := range l.Blocks {
 			ifi, ok := b.Instrs[len(b.Instrs)-1].(*ssa.If)
@@ -1061,6 +1062,7 @@ func findPackLoop(p *prover.F) *packLoop {
 			}
 			pl.remain = rem
 			pl.branchR[b.Succs[0]] = r
+			pl.test[r] = b
 			if r == 2 {
 				last2 = b
 			}
@@ -1080,6 +1082,7 @@ func findPackLoop(p *prover.F) *packLoop {
 						if lc, isC := cmp.Y.(*ssa.Call); isC {
 							if rc, isRC := sub.X.(*ssa.Call); isRC && len(lc.Call.Args) == 1 && len(rc.Call.Args) == 1 && lc.Call.Args[0] == rc.Call.Args[0] {
 								pl.branchR[last2.Succs[1]] = 1
+								pl.test[1] = last2
 							}
 						}
 					}
@@ -1297,6 +1300,38 @@ func wiringRule(c *core.Ctx, key string, fn *ssa.Function, pack bool) {
 		}
 		k := fmt.Sprintf("%s#r%d.count", key, r)
 		c.Decide(count[r] == wantOut, "C08-WIRING", k, pos, fmt.Sprintf("%d outputs", wantOut), fmt.Sprintf("the branch for %d input units emits %d output units, expected %d", r, count[r], wantOut))
+	}
+	// the chain is complete and descending: a branch for every count from the block size down to one, each tested only
+	// after the larger counts were found not to apply (a missing or late test makes a tail be packed in two pieces)
+	{
+		top := int64(8)
+		if !pack {
+			top = 7
+		}
+		var cp []string
+		for r := int64(1); r <= top; r++ {
+			if pl.test[r] == nil {
+				cp = append(cp, fmt.Sprintf("no branch `remaining >= %d`: a tail of %d units is handled by the branches for fewer units, in pieces", r, r))
+			}
+		}
+		for _, r := range rs {
+			if r < 1 || r > top {
+				cp = append(cp, fmt.Sprintf("a branch for %d units (blocks have at most %d)", r, top))
+			}
+		}
+		for r := int64(1); r < top; r++ {
+			lo, hi := pl.test[r], pl.test[r+1]
+			if lo == nil || hi == nil {
+				continue
+			}
+			if lo == hi {
+				continue // the default arm of the last test
+			}
+			if !(hi.Succs[1] == lo || hi.Succs[1].Dominates(lo)) {
+				cp = append(cp, fmt.Sprintf("`remaining >= %d` is not tested on the false side of `remaining >= %d`", r, r+1))
+			}
+		}
+		c.Decide(len(cp) == 0, "C08-WIRING", key+"#chain", pos, fmt.Sprintf("branches for %d..1 units, tested in descending order", top), strings.Join(cp, "; "))
 	}
 	// cursor increments at the merge: every int header phi advances by the branch's amount
 	for ph := range headerPhis {
